@@ -720,8 +720,16 @@ def run(ctx):
             def init_zero(l):
                 ds = [d for d in b.defs().get(l, []) if not b.is_cleanup(d[0]) and d not in loop_defs(l)]
                 return len(ds) == 1 and ds[0][1] != "term" and eb.at(ds[0][0], ds[0][1]).rvalue(ds[0][2]["rv"])[0] == "c" and float(eb.at(ds[0][0], ds[0][1]).rvalue(ds[0][2]["rv"])[1]) == 0.0
+            # "a happens before c in the same iteration": c is reachable from a without going
+            # round the sample loop (its header is the outermost loop around the inputs)
+            ibb_ = ins_e[(1, "odd")][1]
+            lps_ = [(h_, bd_) for h_, bd_ in b.natural_loops() if ibb_ in bd_]
+            hdr_ = max(lps_, key=lambda x_: len(x_[1]))[0] if lps_ else None
+
             def before(a_, c_):
-                return (a_[0] == c_[0] and a_[1] < c_[1]) or (a_[0] != c_[0] and a_[0] in b.dominators().get(c_[0], ()))
+                if a_[0] == c_[0]:
+                    return a_[1] < c_[1]
+                return b.can_reach(a_[0], c_[0], avoid=({hdr_} if hdr_ is not None else ()))
             d1s, d2s = loop_defs(v1), loop_defs(v2)
             okd = bool(d1s) and bool(d2s) and init_zero(v1) and init_zero(v2)
             why = "missing update or non-zero start"
